@@ -17,3 +17,16 @@ func pinnedLocals() map[string][]string {
 	}
 	return pinnedLocalsCache
 }
+
+//go:embed pinned_lits.json
+var pinnedLitsJSON []byte
+
+var pinnedLitsCache map[string][]string
+
+func pinnedLits() map[string][]string {
+	if pinnedLitsCache == nil {
+		pinnedLitsCache = map[string][]string{}
+		_ = json.Unmarshal(pinnedLitsJSON, &pinnedLitsCache)
+	}
+	return pinnedLitsCache
+}
